@@ -9,6 +9,9 @@ of the process-global state a real child process would own:
   numpy legacy global     fork: inherited from the parent at (re)fork time; spawn: simulator-chosen entropy
   _GLOBAL_WORKER_CONFIG   fork: whatever the parent had (possibly a stale config, possibly undefined); spawn: undefined
   identity                parent-global counter that keeps growing across pools and across recycled workers
+  base identity           the simulated process itself may be a worker of a pool the caller runs (`base_identity=(k,)`):
+                          `current_process()._identity` is then (k,) outside any library pool, and creating a pool raises
+                          like CPython does for daemonic processes
 
 initargs, task arguments and results cross the process boundary through a real pickle round trip.  Workers share
 nothing, so task granularity is the complete interleaving space: the schedule is the task->worker assignment plus
@@ -35,12 +38,15 @@ class _Proc:
 class PoolWorld:
     """state shared by every SimPool created in one simulated parent process"""
 
-    def __init__(self, seed: int, start_method: str = "fork", cpu_count: int = 4, identity_start: int = 1, assign: list | None = None, assign_policy: str = "uniform"):
+    def __init__(self, seed: int, start_method: str = "fork", cpu_count: int = 4, identity_start: int = 1, assign: list | None = None, assign_policy: str = "uniform", base_identity=()):
         self.prng = random.Random(seed)
+        # the simulated process may itself be a worker of a pool the *caller* runs (identity (k,)); such a (daemonic) process
+        # cannot start a pool of its own
+        self.base_identity = tuple(base_identity)
         self.start_method = start_method
         self.cpu_count = cpu_count
         self.next_identity = identity_start
-        self.current = _Proc(())
+        self.current = _Proc(self.base_identity)
         self.assign_script = list(assign) if assign is not None else None
         self.assign_pos = 0
         self.assign_policy = assign_policy
@@ -87,6 +93,8 @@ def _mdm():
 class SimPool:
     def __init__(self, world: PoolWorld, processes=None, initializer=None, initargs=(), maxtasksperchild=None, context=None):
         self.world = world
+        if world.base_identity:
+            raise AssertionError("daemonic processes are not allowed to have children")
         if processes is None:
             processes = world.cpu_count
         if processes < 1:
@@ -125,7 +133,7 @@ class SimPool:
             return fn()
         finally:
             w.py_state, w.np_state, w.gwc = self._parent_snapshot()
-            self.world.current = _Proc(())
+            self.world.current = _Proc(self.world.base_identity)
             self._install(*parent)
 
     def _spawn(self) -> _Worker:
